@@ -309,13 +309,13 @@ Proof.
   destruct (0 <=? n) eqn:E; zb; cbn [sw sh]; sites; rng.
 Qed.
 
-Lemma ellipse_center_2x_total t s : pbound 2048 t -> sbound 2048 s -> ellipse_center_2x_ok t s = true.
+Lemma ellipse_center_2x_total t s : pbound 4096 t -> sbound 2048 s -> ellipse_center_2x_ok t s = true.
 Proof.
   unfold pbound, sbound. intros [? ?] [? ?].
   unfold ellipse_center_2x_ok, point_mul_ok, point_add_size_ok, size_as_i32_ok, size_sat_sub, pmul. unf_sat.
   cbn [px py sw sh]. sites; rng.
 Qed.
-Lemma ellipse_center_2x_bound t s : pbound 2048 t -> sbound 2048 s -> pbound 6143 (ellipse_center_2x t s).
+Lemma ellipse_center_2x_bound t s : pbound 4096 t -> sbound 2048 s -> pbound 10239 (ellipse_center_2x t s).
 Proof.
   unfold pbound, sbound. intros [? ?] [? ?].
   unfold ellipse_center_2x, padd_size, size_sat_sub, pmul. unf_sat. cbn [px py sw sh]. lia.
@@ -327,32 +327,33 @@ Proof.
   pose proof (mul_bound_nn (sh s * sh s) (sw s * sw s) (2048 * 2048) (2048 * 2048)).
   sites; try rng. apply diameter_to_threshold_total; lia.
 Qed.
-Lemma ellipse_contains_point_total s q : sbound 2048 s -> pbound 8191 q -> ellipse_contains_point_ok s q = true.
+Lemma ellipse_contains_point_total s q : sbound 2048 s -> pbound 16384 q -> ellipse_contains_point_ok s q = true.
 Proof.
   unfold sbound, pbound. intros [? ?] [? ?]. unfold ellipse_contains_point_ok.
   pose proof (mul_bound_nn (sw s) (sw s) 2048 2048). pose proof (mul_bound_nn (sh s) (sh s) 2048 2048).
-  pose proof (mul_bound (px q) (px q) 8191 8191). pose proof (mul_bound (py q) (py q) 8191 8191).
+  pose proof (mul_bound (px q) (px q) 16384 16384). pose proof (mul_bound (py q) (py q) 16384 16384).
   pose proof (Z.square_nonneg (px q)). pose proof (Z.square_nonneg (py q)).
-  pose proof (mul_bound_nn (sh s * sh s) (px q * px q) (2048 * 2048) (8191 * 8191)).
-  pose proof (mul_bound_nn (sw s * sw s) (py q * py q) (2048 * 2048) (8191 * 8191)).
+  pose proof (mul_bound_nn (sh s * sh s) (px q * px q) (2048 * 2048) (16384 * 16384)).
+  pose proof (mul_bound_nn (sw s * sw s) (py q * py q) (2048 * 2048) (16384 * 16384)).
   cbv zeta. sites; rng.
 Qed.
-Lemma ellipse_contains_gen t s p : pbound 2048 t -> sbound 2048 s -> ds_point p -> ellipse_contains_ok t s p = true.
+Lemma ellipse_contains_gen t s p : pbound 4096 t -> sbound 2048 s -> pbound 2048 p -> ellipse_contains_ok t s p = true.
 Proof.
   intros Ht Hs Hp. unfold ellipse_contains_ok.
   rewrite (ellipse_contains_new_total s Hs), (ellipse_center_2x_total t s Ht Hs).
   pose proof (ellipse_center_2x_bound t s Ht Hs) as [? ?].
-  assert (pbound 8191 (psub (pmul p 2) (ellipse_center_2x t s))).
-  { revert Hp. unf_ds. intros [? ?]. unfold pbound, psub, pmul. cbn [px py]. lia. }
+  assert (pbound 16384 (psub (pmul p 2) (ellipse_center_2x t s))).
+  { revert Hp. unfold pbound, psub, pmul. cbn [px py]. lia. }
   rewrite (ellipse_contains_point_total s _ Hs) by assumption.
-  revert Hp. unf_ds. intros [? ?]. unfold point_mul_ok, point_sub_ok, pmul. cbn [px py andb].
+  revert Hp. unfold pbound. intros [? ?]. unfold point_mul_ok, point_sub_ok, pmul. cbn [px py andb].
   sites; rng.
 Qed.
 Lemma ellipse_contains_total t s p : ds_point t -> ds_size s -> ds_point p -> ellipse_contains_ok t s p = true.
 Proof.
-  intros Ht Hs Hp. apply ellipse_contains_gen; [ | | assumption].
+  intros Ht Hs Hp. apply ellipse_contains_gen.
   - revert Ht. unf_ds. unfold pbound. lia.
   - revert Hs. unf_ds. unfold sbound. lia.
+  - revert Hp. unf_ds. unfold pbound. lia.
 Qed.
 Lemma ellipse_offset_total t s n : ds_point t -> ds_size s -> ds_offset n -> ellipse_offset_ok t s n = true.
 Proof.
@@ -364,14 +365,14 @@ Proof.
   destruct (0 <=? n) eqn:E; zb; cbn [sw sh]; sites; rng.
 Qed.
 
-Lemma quadrant_top_left_bound t radius q : ds_point t -> ds_size radius -> pbound 2048 (quadrant_ellipse_top_left t radius q).
+Lemma quadrant_top_left_bound t radius q : pbound 2048 t -> ds_size radius -> pbound 4096 (quadrant_ellipse_top_left t radius q).
 Proof.
-  unf_ds. intros [? ?] [? ?]. unfold pbound, quadrant_ellipse_top_left, psub_size.
+  unf_ds. unfold pbound. intros [? ?] [? ?]. unfold quadrant_ellipse_top_left, psub_size.
   destruct q; cbn [px py sw sh]; lia.
 Qed.
 Lemma smul2_bound radius : ds_size radius -> sbound 2048 (smul radius 2).
 Proof. unf_ds. intros [? ?]. unfold sbound, smul. cbn [sw sh]. lia. Qed.
-Lemma ellipse_quadrant_new_total t radius q : ds_point t -> ds_size radius -> ellipse_quadrant_new_ok t radius q = true.
+Lemma ellipse_quadrant_new_total t radius q : pbound 2048 t -> ds_size radius -> ellipse_quadrant_new_ok t radius q = true.
 Proof.
   intros Ht Hr. unfold ellipse_quadrant_new_ok.
   rewrite (ellipse_center_2x_total _ _ (quadrant_top_left_bound t radius q Ht Hr) (smul2_bound radius Hr)).
@@ -379,19 +380,19 @@ Proof.
   assert (size_mul_ok radius 2 = true) as ->.
   { revert Hr. unf_ds. intros [? ?]. unfold size_mul_ok. sites; rng. }
   rewrite !andb_true_r.
-  revert Ht Hr. unf_ds. intros [? ?] [? ?].
+  revert Ht Hr. unf_ds. unfold pbound. intros [? ?] [? ?].
   unfold point_sub_size_ok, size_as_i32_ok, i32_max. destruct q; cbn [px py sw sh]; sites; rng.
 Qed.
 Lemma ellipse_quadrant_contains_total t radius q p :
-  ds_point t -> ds_size radius -> ds_point p -> ellipse_quadrant_contains_ok t radius q p = true.
+  pbound 2048 t -> ds_size radius -> pbound 2048 p -> ellipse_quadrant_contains_ok t radius q p = true.
 Proof.
   intros Ht Hr Hp. unfold ellipse_quadrant_contains_ok. cbv zeta.
   pose proof (ellipse_center_2x_bound _ _ (quadrant_top_left_bound t radius q Ht Hr) (smul2_bound radius Hr)) as [? ?].
   set (c := ellipse_center_2x _ _) in *.
-  assert (pbound 8191 (psub (pmul p 2) c)).
-  { revert Hp. unf_ds. intros [? ?]. unfold pbound, psub, pmul. cbn [px py]. lia. }
+  assert (pbound 16384 (psub (pmul p 2) c)).
+  { revert Hp. unfold pbound, psub, pmul. cbn [px py]. lia. }
   rewrite (ellipse_contains_point_total _ _ (smul2_bound radius Hr)) by assumption.
-  revert Hp. unf_ds. intros [? ?]. unfold point_mul_ok, point_sub_ok, pmul. cbn [px py andb].
+  revert Hp. unfold pbound. intros [? ?]. unfold point_mul_ok, point_sub_ok, pmul. cbn [px py andb].
   sites; rng.
 Qed.
 
@@ -1174,5 +1175,8 @@ Lemma sites_covered : forall row, In row Gen.ArithSites.arith_sites -> site_cove
 Proof. apply forallb_forall. exact sites_covered_all. Qed.
 Lemma records_all_live : records_live Gen.ArithSites.arith_sites = true.
 Proof. vm_compute. reflexivity. Qed.
-Lemma no_std_scan : Gen.ArithSites.no_std_scan_passed = true.
-Proof. reflexivity. Qed.
+(* the syntactic scan for heap allocation found nothing: both crates are #![no_std], no alloc:: / std:: path or
+   extern crate outside test code in the >= 100 files scanned (supporting evidence; allocation is not modelled) *)
+Lemma no_std_scan : forallb snd Gen.ArithSites.no_std_attr = true /\ Gen.ArithSites.alloc_std_paths = [] /\
+  (100 <= Gen.ArithSites.scanned_files)%nat /\ length Gen.ArithSites.no_std_attr = 2%nat.
+Proof. vm_compute. repeat split; try reflexivity. apply Nat.leb_le. reflexivity. Qed.
